@@ -14,6 +14,7 @@ import (
 	"crypto/sha256"
 	"fmt"
 	"math/big"
+	"time"
 
 	"github.com/elastos/Elastos.ELA/auxpow"
 	"github.com/elastos/Elastos.ELA/common"
@@ -24,6 +25,7 @@ import (
 	"github.com/elastos/Elastos.ELA/core/types/interfaces"
 	"github.com/elastos/Elastos.ELA/core/types/payload"
 	"github.com/elastos/Elastos.ELA/elanet/bloom"
+	"github.com/elastos/Elastos.ELA/elanet/pact"
 	"github.com/elastos/Elastos.ELA/p2p/msg"
 
 	"verifharness/elaenv"
@@ -373,7 +375,7 @@ func main() {
 				doCheck(c, root, fmt.Sprintf("hash-dup:%d", k), true)
 			}
 		}
-		for _, d := range []int64{-1, 1, int64(n), 1 << 20, 1<<31 - int64(n)} {
+		for _, d := range []int64{-1, 1, int64(n), 10000 - int64(n), 10001 - int64(n), 1 << 20, 1<<31 - int64(n)} {
 			nn := int64(n) + d
 			if nn < 0 || nn > 1<<31 {
 				continue
@@ -433,6 +435,54 @@ func main() {
 			st.Count(fmt.Sprintf("branch:%d:%v:%d", n, pat, i), true, "GetTxMerkleBranch")
 			if got != root {
 				st.Fail("GetTxMerkleBranch:root", "the branch of a matched transaction does not evaluate to the block's merkle root", bi)
+			}
+		}
+	}
+
+	// ---- corpus: past robustness failures (fixed in /repo, see notes/C08.md); they must return an error
+	if pact.MaxTxPerBlock != 10000 {
+		st.Fail("harness:MaxTxPerBlock", "pact.MaxTxPerBlock is not the 10000 the model assumes", pact.MaxTxPerBlock)
+	}
+	{
+		hx := func(b byte) *common.Uint256 { var x common.Uint256; x[0] = b; return &x }
+		for _, big := range []uint32{1<<31 + 1, 0xffffffff} {
+			done := make(chan int, 1)
+			go func(nn uint32) {
+				m := msg.MerkleBlock{Header: &common2.Header{}, Transactions: nn, Hashes: []*common.Uint256{hx(1)}, Flags: []byte{0}}
+				r, _ := check(m)
+				done <- r
+			}(big)
+			select {
+			case r := <-done:
+				id++
+				light = append(light, fmt.Sprintf("CCheck %d true %d 5 [0] [1] %d []", id, big, r))
+				st.LogCase(run.Out, id, map[string]interface{}{"op": "CheckMerkleBlock", "corpus": "huge count", "numtx": big, "res": r})
+				st.Count(fmt.Sprintf("corpus:huge:%d", big), true, "check:corpus")
+				if r != 0 {
+					st.Fail("CheckMerkleBlock:huge-count", "a merkle block claiming more than 2^31 transactions was not rejected", big)
+				}
+			case <-time.After(5 * time.Second):
+				st.Fail("CheckMerkleBlock:hang", "CheckMerkleBlock does not terminate for Transactions > 2^31", big)
+			}
+		}
+		// branch of a transaction the message does not reveal / of an unknown id
+		mbk := bloom.MBlock{NumTx: 4}
+		for i := 0; i < 4; i++ {
+			mbk.AllHashes = append(mbk.AllHashes, hx(byte(10+i)))
+			mbk.MatchedBits = append(mbk.MatchedBits, 0)
+		}
+		mbk.MatchedBits[3] = 1
+		mbk.TraverseAndBuild(2, 0)
+		m := msg.MerkleBlock{Header: &common2.Header{MerkleRoot: *mbk.CalcHash(2, 0)}, Transactions: 4, Hashes: mbk.FinalHashes, Flags: []byte{0}}
+		for i, b := range mbk.Bits {
+			m.Flags[0] |= b << uint(i)
+		}
+		for _, q := range []byte{11, 99} {
+			var err error
+			p, v := lib.Recover(func() { _, err = bloom.GetTxMerkleBranch(m, hx(q)) })
+			st.Count(fmt.Sprintf("corpus:branch:%d", q), true, "branch:corpus")
+			if p || err == nil {
+				st.Fail("GetTxMerkleBranch:unrevealed", fmt.Sprintf("branch request for an id the message does not reveal: panic=%v (%v) err=%v", p, v, err), q)
 			}
 		}
 	}
